@@ -312,6 +312,43 @@ def r_gen_pure(ck: Checker, rule: str = "R-GEN-PURE") -> None:
         ck.incomplete(rule, None, None, f"only {n} fragments (22 expected)")
 
 
+
+def r_types_cache(ck: Checker, rule: str = "R-TYPES-CACHE") -> None:
+    """The per-class field tables are computed for exactly the class asked for, on every path, by the authoritative classifier."""
+    from ..dtree import decision_tree
+
+    f = ck.repo.func("pyoak.types", "_populate_type_dicts")
+    body = [st for st in f.node.body if not isinstance(st, (ast.Import, ast.ImportFrom)) and not (isinstance(st, ast.Expr) and isinstance(st.value, ast.Constant))]
+    leaves = decision_tree(body, max_atoms=6)
+    bad = []
+    tables = ("_TYPE_TO_CHILD_FIELDS", "_TYPE_TO_PROPS", "_TYPE_TO_ALL_FIELDS")
+    for lf in leaves:
+        if lf.outcome not in ("fall", "return"):
+            bad.append(f"path leaves by {lf.outcome}")
+            continue
+        st = [norm(x) for x in lf.stmts]
+        if "_TYPE_TO_CHILD_FIELDS[cls], _TYPE_TO_PROPS[cls] = process_node_fields(cls, ASTNode)" not in st:
+            bad.append(f"a path fills the tables without process_node_fields(cls, ASTNode) (condition {lf.assign or 'always'})")
+        allf = [x for x in st if x.startswith("_TYPE_TO_ALL_FIELDS[cls] =")]
+        if allf != ["_TYPE_TO_ALL_FIELDS[cls] = {**_TYPE_TO_CHILD_FIELDS[cls], **_TYPE_TO_PROPS[cls]}"]:
+            bad.append(f"all-fields table filled as {allf}")
+        for x in lf.stmts:
+            if isinstance(x, ast.Assign):
+                for t in x.targets:
+                    for sub in ([t] if not isinstance(t, ast.Tuple) else t.elts):
+                        if isinstance(sub, ast.Subscript) and norm(sub.value) in tables and norm(sub.slice) != "cls":
+                            bad.append(f"table keyed by {norm(sub.slice)}")
+    what = "_populate_type_dicts fills the three per-class tables from process_node_fields(cls, ASTNode) on every path (no sharing with a base class)"
+    (ck.violation if bad else ck.holds)(rule, f, f.node, what, evaluations=len(leaves), **({"construct": f"_populate_type_dicts: {bad[0]}"} if bad else {}))
+    for q, table in (("get_cls_all_fields", "_TYPE_TO_ALL_FIELDS"), ("get_cls_child_fields", "_TYPE_TO_CHILD_FIELDS"), ("get_cls_props", "_TYPE_TO_PROPS")):
+        g = ck.repo.func("pyoak.types", q)
+        b = [st for st in g.node.body if not (isinstance(st, ast.Expr) and isinstance(st.value, ast.Constant))]
+        what = f"{q}(cls) populates on a miss and returns the table entry of exactly that class"
+        ok = len(b) == 2 and isinstance(b[0], ast.If) and norm(b[0].test) == f"cls not in {table}" and [norm(x) for x in b[0].body] == ["_populate_type_dicts(cls)"] \
+            and not b[0].orelse and norm(b[1]) == f"return {table}[cls]"
+        (ck.holds if ok else ck.violation)(rule, g, g.node, what, **({} if ok else {"construct": f"{q}: lookup/populate form not recognised or wrong"}))
+
+
 # --------------------------------------------------------------------------- order key / reinstall
 def r_order_key(ck: Checker, rule: str = "R-ORDER-KEY") -> None:
     """Sorted branch first and sorted by field name; unsorted branch iterates the mapping itself."""
